@@ -424,15 +424,36 @@ def hostile_payloads(ctx, rng, n):
         f.write("import builtins\nbuiltins.%s.append('executed')\nclass Evil(Exception):\n    def __init__(self, *a):\n"
                 "        builtins.%s.append('ctor')\n" % (marker, marker))
     vocab = dict(canary_module=modname, ctor_class=(__name__, "CustomErr"))
+    # a package that IS loaded and resolves attributes lazily (PEP 562), as many large packages do: asking it for a name runs code
+    lazy = "rv_c09_lazypkg_%d" % os.getpid()
+    os.mkdir(os.path.join(scratch, lazy))
+    with open(os.path.join(scratch, lazy, "__init__.py"), "w") as f:
+        f.write("import importlib\ndef __getattr__(name):\n    if name.startswith('__'):\n        raise AttributeError(name)\n"
+                "    return importlib.import_module(__name__ + '.' + name)\n")
+    with open(os.path.join(scratch, lazy, "heavy.py"), "w") as f:
+        f.write("import builtins\nbuiltins.%s.append('lazy submodule executed')\nclass Boom(Exception):\n    pass\n" % marker)
+    __import__(lazy)
+    # records that name something in a module which is loaded here, without custom exceptions being allowed: module-level
+    # aliases of built-in classes, ordinary library exception classes, a lazily resolved attribute
+    aliases = [("os", "error"), ("socket", "timeout"), ("socket", "error"), ("select", "error"), ("json", "JSONDecodeError"), ("queue", "Empty"),
+               ("subprocess", "CalledProcessError"), ("io", "UnsupportedOperation"), ("zlib", "error"), ("struct", "error"), (lazy, "heavy"),
+               (lazy + ".heavy", "Boom"), ("rpyc.core.vinegar", "GenericException"), ("rpyc.core.async_", "AsyncResultTimeout")]
+    for m, _ in aliases:
+        if not m.startswith(lazy):
+            try:
+                __import__(m)
+            except ImportError:
+                pass
+    forced = [((m, k), ("arg",), (), "tb") for (m, k) in aliases]
     pair = None
     try:
-        for i in range(n):
+        for i in range(n + len(forced)):
             if pair is None or pair.a.closed:
                 if pair is not None:
                     pair.close()
                     ctx.count("connections_ended_by_payload")
                 pair = vnet.ServedPair(rpyc.VoidService(), rpyc.VoidService())
-            payload = gen.gen_exc_payload(rng, vocab)
+            payload = forced[i] if i < len(forced) else gen.gen_exc_payload(rng, vocab)
             try:
                 raw = rc.msg(rc.MSG_EXCEPTION, 0, payload)
             except TypeError:
@@ -465,6 +486,15 @@ def hostile_payloads(ctx, rng, n):
                               "which is not an exception" % (type(built).__module__, type(built).__mro__[1].__name__ if len(type(built).__mro__) > 1 else type(built).__name__),
                               dict(payload=repr(payload)[:300], outcome=outcome))
             wit = dict(payload=repr(payload)[:300], outcome=outcome)
+            if i < len(forced) and isinstance(built, BaseException):
+                # default configuration: nothing that is not named as a built-in may come back as a real class
+                from rpyc.core import vinegar as _vin
+                want = "%s.%s" % payload[0]
+                if not isinstance(built, _vin.GenericException) or type(built).__name__ != want:
+                    ctx.violation("C09/hostile/real-class-without-permission", "a record naming %s (a name in a loaded module, not a built-in) was rebuilt as %s.%s (mro %s) although "
+                                  "custom exceptions are not allowed: expected the generic stand-in named %r" % (want, type(built).__module__, type(built).__name__,
+                                                                                                                 [k.__name__ for k in type(built).__mro__][:4], want), wit)
+                ctx.count("alias_records")
             if len(log) != n_log:
                 ctx.violation("C09/hostile/module-executed", "a crafted exception record made the receiver import/execute a module (%r)" % (log[n_log:],), wit)
             if len(INIT_LOG) != n_init:
@@ -479,6 +509,8 @@ def hostile_payloads(ctx, rng, n):
             pair.close()
         sys.path.remove(scratch)
         sys.modules.pop(modname, None)
+        for m in [m for m in sys.modules if m == lazy or m.startswith(lazy + ".")]:
+            sys.modules.pop(m, None)
         delattr(builtins, marker)
         shutil.rmtree(scratch, ignore_errors=True)
 
